@@ -96,6 +96,22 @@ Definition spec_ok (ws : list watcher) (sched : list event) (how : via)
   && spec_stream ws (chunks_of true sched) (proj true sched writes) (snd raised)
   && opt_exn_eqb exc (if fst raised || snd raised then Some (exn_of how) else None).
 
+(** The watchers that have to be in effect for a call: those given with the call,
+    else the configured ones ([run.watchers]); under sudo additionally -- and last --
+    sudo's own failing responder: prompt -> the per-call password if one was given,
+    else the configured one; sentinel "Sorry, try again.".  Calls are independent:
+    a watcher list or object used for an earlier call behaves as new. *)
+Definition spec_watchers (cfg_ws : list watcher) (kw_ws : option (list watcher))
+           (sudo : option sudo_info) : list watcher :=
+  let base := match kw_ws with Some l => l | None => cfg_ws end in
+  match sudo with
+  | None => base
+  | Some su =>
+      let pw := match su_kw_password su with Some p => p | None => su_cfg_password su end in
+      base ++ [WFail (lit (su_prompt su)) (password_line pw)
+                     (lit ("Sorry, try again." ++ String (ascii_of_nat 10) "")%string)]
+  end.
+
 (** * The region in which the present code is proved to meet the specification
 
     [fa] / [ft]: the index repair / the [tried] repair is in place ([false] for the
